@@ -6,7 +6,9 @@ CONSTANT Presenters = {}
 CONSTANT EpochIds = {1, 2, 3, 4, 5}
 CONSTANT MaxSteps = 7
 CONSTANT Ops <- SeqOps
-CONSTANT SessChecksDisabled = FALSE
+CONSTANT SessChecksDisabled = TRUE
+CONSTANT RefreshUpserts = TRUE
+CONSTANT InFlightOps = {}
 SPECIFICATION SimSpec
 INVARIANT BehaviourExport
 CHECK_DEADLOCK FALSE
